@@ -4,6 +4,7 @@
 //   set HEX                      section::set_data (exact allocation, maybe unterminated) -> size=N
 //   setsize N                    section::set_size (generated for NOBITS sections only: a .bss-like size without data) -> size=N
 //   add HEX | adds HEX | addnull add_string(const char*) / (const std::string&) / (nullptr) -> idx=I size=N
+//   addselfr K                  add_string( get_string( K-th returned index ) ): the source lies in the section's own buffer -> idx=I size=N
 //   get I | cget I | getr K      get_string(I) / via the const accessor / of the K-th returned index
 //                                -> null | str off=O s=HEX | outside | unterminated off=O
 //   dump                         -> size=N data=HEX|null
@@ -126,6 +127,17 @@ static void run_case( const std::vector<Toks>& ops, FILE* out )
         else if ( op == "addnull" ) {
             string_section_accessor acc( c.sec );
             Elf_Word                i = acc.add_string( (const char*)nullptr );
+            c.idxs.push_back( i );
+            fprintf( out, "idx=%u size=%llu\n", (unsigned)i, (unsigned long long)c.sec->get_size() );
+        }
+        else if ( op == "addselfr" && t.size() == 2 ) {
+            size_t k = (size_t)num( t[1] );
+            if ( k >= c.idxs.size() ) {
+                fprintf( out, "bad-op\n" );
+                continue;
+            }
+            string_section_accessor acc( c.sec );
+            Elf_Word                i = acc.add_string( acc.get_string( c.idxs[k] ) );
             c.idxs.push_back( i );
             fprintf( out, "idx=%u size=%llu\n", (unsigned)i, (unsigned long long)c.sec->get_size() );
         }
